@@ -387,6 +387,9 @@ class EvalMixin:
             yield from self.obj_attr(st, base, attr, node); return
         if base.ty in (T.Str,) or isinstance(base.ty, (T.List, T.Dict, T.Set, T.Atom)):
             yield st, SV(PyFunc, ("bound-builtin", attr, base, node.value if isinstance(node, ast.Attribute) else None)); return
+        if base.ty == Display and attr in ("append", "add") and isinstance(node, ast.Attribute):
+            # a list / set built by a literal or by list() / set(): it takes its element type from the first element added
+            yield st, SV(PyFunc, ("bound-builtin", attr, base, node.value)); return
         raise VCError("attribute %s on %s (line %s)" % (attr, base.ty, getattr(node, "lineno", "?")))
 
     def classes_of(self, st, obj):
